@@ -206,6 +206,7 @@ def oracle(planner, ops, out, rc, err):
     ctx = contexts(ops)
     n_ops = len(ops)
     valid_start = False
+    solved_since_clear = roadmap_old = False
     if out is None:
         return [(0, "no-return", "the process did not finish within the process timeout")]
     for i, ln in enumerate(ops):
@@ -220,6 +221,14 @@ def oracle(planner, ops, out, rc, err):
         if " EXC:" in o and op != "solve":
             fails.append((i, "exception", o[:200]))
             continue
+        # roadmap planners: does the roadmap possibly still hold milestones of an earlier query?  Only clear() drops the
+        # roadmap; clearQuery() and setProblemDefinition() keep it by design.
+        if op == "clear":
+            solved_since_clear = roadmap_old = False
+        elif op == "solve":
+            solved_since_clear = True
+        elif op in ("setpd", "setsg", "mutpd") and solved_since_clear:
+            roadmap_old = True
         if op in ("setpd", "setsg", "mutpd"):
             valid_start = kv(o).get("svalid") == "1"
         elif op == "addstart":
@@ -259,11 +268,13 @@ def oracle(planner, ops, out, rc, err):
                 fails.append((i, "exact-not-at-goal", "solution #%d is stored as exact but its last state does not satisfy the goal" % s["idx"]))
             if not s["valid"]:
                 fails.append((i, "invalid-state", "solution #%d contains an invalid state" % s["idx"]))
-            # roadmap planners keep the roadmap across queries by design (clearQuery(): "retain all datastructures ...
-            # that can help solve the next query"); the previous query's start/goal stay in it as ordinary milestones
-            # and may be INTERMEDIATE vertices of a new path.  Its end points are still judged (start / exact-not-at-goal),
-            # and after clear() the clause applies in full.
-            if s["old"] > 0 and not (planner in ROADMAP and c.endswith("/dirty")):
+            # roadmap planners (PRM, PRMstar, LazyPRM, LazyPRMstar, SPARS, SPARStwo) keep the roadmap across queries by
+            # design: clearQuery() - called by their setProblemDefinition() - only empties startM_/goalM_ and restarts
+            # the input-state counters ("retain all datastructures ... that can help solve the next query"), so the
+            # previous query's start/goal stay in the roadmap as ordinary milestones and may be INTERMEDIATE vertices
+            # of a new path, whether or not clearQuery() was called.  The path's end points are still judged (start /
+            # exact-not-at-goal), and after clear() - which frees the roadmap - the clause applies in full.
+            if s["old"] > 0 and not (planner in ROADMAP and roadmap_old):
                 fails.append((i, "old-state", "solution #%d contains %d start/goal state(s) of an earlier query" % (s["idx"], s["old"])))
             if s["ctl"] == "0":
                 fails.append((i, "control-shape", "control path #%d: controls/durations do not match the states" % s["idx"]))
